@@ -43,7 +43,7 @@ impl Prop for C02 {
             kind_weights: [1, 10, 1, 1],
             p_limit: 0.15,
             p_counter: 0.15,
-            w_end: 0,
+            w_end: 1,
             w_signal: 1,
             ..MachineParams::default()
         };
@@ -101,6 +101,11 @@ impl Prop for C02 {
                     pad_all += 1;
                     if m < n {
                         pad_m[m] += 1;
+                        if run.fw.verif_snapshot().machines[m].current_state == maybenot::constants::STATE_END {
+                            obs.hit("padding_sent_for_ended_machine");
+                        }
+                    } else {
+                        obs.hit("padding_sent_for_unknown_machine");
                     }
                 }
                 _ => {}
@@ -185,6 +190,8 @@ impl Prop for C02 {
             "others_padding_counts_while_own_zero",
             "decided_by_fraction",
             "within_packet_budget",
+            "padding_sent_for_ended_machine",
+            "padding_sent_for_unknown_machine",
         ]
     }
 
